@@ -17,7 +17,7 @@
         completion, bounded FIFO of capacity cap, then every worker drains) and evaluates the laws.
         cap >= number of packets (no overflow, outcome independent of the interleaving):
           MODEL `calls=<n> queued=<n> dropped=<n> disp=<n> drop=<n> wd=<a,b,..> results=<n> law=ok`
-          SPEC  same line with drop / wd as the returned outcomes demand (known = an HTTP worker met an Err)
+          SPEC  same line with drop / wd as the returned outcomes demand (known = 0: no class left after 93cdf08)
         otherwise (overflow depends on the real interleaving): MODEL `calls=<n> law=ok`, SPEC `-`;
         the harness checks the laws on the observed outcomes and counters (`!` on a breach). *)
 From Coq Require Import List NArith Bool Arith.
@@ -98,14 +98,13 @@ Fixpoint parse_pkts (ts : list bytes) : option (list pkt) :=
 Definition pool_run (k : pool_kind) (nworkers cap : nat) (ps : list pkt) : pstate pkt unit :=
   let x0 := init pkt unit nworkers 1 tt in
   let x1 := fold_left (dispatch_now pkt unit pk_shard pk_analyse k cap) ps x0 in
-  drain_all pkt unit pk_analyse k nworkers x1.
+  drain_all pkt unit pk_analyse nworkers x1.
 
 Definition law_b (k : pool_kind) (nworkers : nat) (x : pstate pkt unit) : bool :=
   (calls pkt unit x =? n_queued pkt unit x + n_dropped pkt unit x)
   && (c_dropped pkt unit x =? n_dropped pkt unit x)
   && dispatched_law_b pkt unit k x
-  && forallb (fun w => nth w (c_wdropped pkt unit x) 0 =?
-                       dropped_at pkt unit x w + match k with PHttp => errors_at pkt unit x w | _ => 0 end) (seq 0 nworkers)
+  && forallb (fun w => nth w (c_wdropped pkt unit x) 0 =? dropped_at pkt unit x w) (seq 0 nworkers)
   && (N.of_nat (length (analysed pkt unit x)) =? n_queued pkt unit x)
   && quiescent pkt unit x.
 
@@ -148,7 +147,7 @@ Definition run_line (l : bytes) : bytes :=
                 let nworkers := N.to_nat nw in
                 let x := pool_run k nworkers (N.to_nat cp) ps in
                 if (length ps <=? N.to_nat cp)%nat then
-                  out3 (q_line k nworkers x false) (q_line k nworkers x true) (http_error_counted pkt unit k x)
+                  out3 (q_line k nworkers x false) (q_line k nworkers x true) false
                 else
                   out3 (bs "calls=" ++ show_N (calls pkt unit x) ++ bs " law=" ++
                         (if law_b k nworkers x then bs "ok" else bs "BROKEN")) (bs "-") false
@@ -164,8 +163,8 @@ Proof. vm_compute. reflexivity. Qed.
 
 Example run_line_ex2 :
   run_line (bs "Q http 2 8 1 7 s:0:1 u:0:2 g:1:3")
-  = bs "calls=3 queued=3 dropped=0 disp=3 drop=0 wd=1,0 results=2 law=ok" ++ tab ::
-    bs "calls=3 queued=3 dropped=0 disp=3 drop=0 wd=0,0 results=2 law=ok" ++ tab :: bs "1".
+  = bs "calls=3 queued=3 dropped=0 disp=3 drop=0 wd=0,0 results=2 law=ok" ++ tab ::
+    bs "calls=3 queued=3 dropped=0 disp=3 drop=0 wd=0,0 results=2 law=ok" ++ tab :: bs "0".
 Proof. vm_compute. reflexivity. Qed.
 
 Require Extraction.
